@@ -83,8 +83,8 @@ def run(ck):
         for n in (range(0, cap + 2) if sweep else lengths(rng, cap, ck.thorough)):
             if n >= 255 and not lay["hdr3"]:
                 # the 3-byte length field falls on a reserved byte: the round trip still holds (theorem needs
-                # no hypothesis for it); what happens to the reserved byte is the business of C03
-                ck.count("3-byte length field over a reserved byte (round trip checked, confinement is C03)")
+                # no hypothesis for it); such inputs are outside the quantifier of C03
+                ck.count("3-byte length field over a reserved byte (round trip checked; outside the quantifier of C03)")
             data = bytes(rng.randrange(256) for _ in range(n))
             if rng.random() < 0.1:
                 data = bytes([rng.choice([0, 0xFF, 0xFE, 0x03])]) * n
